@@ -29,7 +29,8 @@
    globals and output are untouched.  Over histories (ExprAssign.v,
    ExprSession.v): in a session made of such expression statements and of
    assignments g = e of pure expressions to globals (the increment form
-   g = g + 1 compiles to INC), of any length, failing statements included,
+   g = g + 1 or g = 1 + g compiles to INC; FloatComm.v proves IEEE addition
+   commutative from the library's specification axiom), of any length, failing statements included,
    every statement gives Sem's value or error class, binds exactly Sem's
    globals, writes nothing and leaves the machine ready — after a runtime
    error too ([C01_simple_sessions_partial]).  And the whole statement
@@ -44,8 +45,7 @@
    compiled code run by the VM model ends with that value or error class and
    those globals, in REPL mode and in file mode, statement after statement
    ([C01_statement_sessions_partial]).  Missing for the full statement:
-   calls, generators, locals and closures, output; g = 1 + g (equal to g + 1 only by commutativity of IEEE addition,
-   not proved here). *)
+   calls, generators, locals and closures, output. *)
 Require Import Calc.Base Calc.Bytecode Calc.Value Calc.FloatText Calc.Ast Calc.Resolve Calc.Compile
         Calc.VM Calc.Sem Calc.Session Calc.CorrSession Calc.SemSession Calc.SemProofs
         Calc.ExprSem Calc.ExprVM Calc.ExprCorrect Calc.ExprTop Calc.ExprAssign Calc.ExprLen Calc.ExprSession
@@ -179,7 +179,7 @@ Print Assumptions C01_simple_sessions_partial.
 (* a session by computation: the model runs it, the theorem covers it *)
 Definition demo_session : list node :=
   [NAssign (NName "x") (NInt 5);
-   NAssign (NName "x") (NBin "+" (NName "x") (NInt 1));
+   NAssign (NName "x") (NBin "+" (NInt 1) (NName "x"));
    NBin "-" (NBin "*" (NName "x") (NName "x")) (NInt 1);
    NBin "+" (NName "nosuch") (NInt 1);
    NAssign (NName "y") (NBin "/" (NName "x") (NInt 0));
